@@ -23,6 +23,10 @@ GR = {
     "unsorted4": dict(freq=[0.05, 0.1, 0.2, 0.4], dir=[180.0, 270.0, 0.0, 90.0]),
     "partial4": dict(freq=[0.05, 0.1, 0.2, 0.4], dir=[0.0, 30.0, 60.0, 90.0]),
     "circ6": dict(freq=[0.1, 0.2, 0.3, 0.4, 0.5], dir=[7.5, 67.5, 127.5, 187.5, 247.5, 307.5]),
+    # 15 of 16 bins of a 22.5-degree circle: NOT full circle (a gap of one bin), must not wrap
+    "almost15": dict(freq=[0.1, 0.2, 0.3], dir=[22.5 * k for k in range(15)]),
+    # 11 of 12 bins, stored unsorted
+    "almost11u": dict(freq=[0.1, 0.2, 0.3], dir=[30.0 * k for k in (5, 6, 7, 8, 9, 10, 0, 1, 2, 3, 4)]),
     "desc4": dict(freq=[0.05, 0.1, 0.2, 0.4], dir=[270.0, 180.0, 90.0, 0.0]),
     "unsorted6": dict(freq=[0.1, 0.2, 0.3], dir=[120.0, 180.0, 240.0, 300.0, 0.0, 60.0]),
 }
@@ -59,8 +63,8 @@ def _window(vals2d, f, dirs, i, j, fw, dw):
 
 
 @harness(P,
-         quick=grid(g=["circ4", "unsorted4", "partial4"], fw=[1, 3], dw=[1, 3], lead=[()]) + grid(g=["circ6"], fw=[3], dw=[5], lead=[()]) + grid(g=["circ4"], fw=[3], dw=[3], lead=[(("site", 2),)]),
-         thorough=grid(g=["desc4", "unsorted6", "circ6"], fw=[1, 3], dw=[1, 3, 5], lead=[()]) + grid(g=["circ6"], fw=[5], dw=[1, 5], lead=[()]) + grid(g=["unsorted4", "partial4"], fw=[3], dw=[3], lead=[(("time", 2),)]))
+         quick=grid(g=["circ4", "unsorted4", "partial4"], fw=[1, 3], dw=[1, 3], lead=[()]) + grid(g=["circ6"], fw=[1, 3], dw=[5], lead=[()]) + grid(g=["almost15"], fw=[1], dw=[3], lead=[()]) + grid(g=["unsorted6"], fw=[1, 3], dw=[3, 5], lead=[()]) + grid(g=["circ4"], fw=[3], dw=[3], lead=[(("site", 2),)]),
+         thorough=grid(g=["desc4", "circ6"], fw=[1, 3], dw=[1, 3, 5], lead=[()]) + grid(g=["almost15", "almost11u"], fw=[1, 3], dw=[3, 5], lead=[()]) + grid(g=["circ6"], fw=[5], dw=[1, 5], lead=[()]) + grid(g=["unsorted4", "partial4"], fw=[3], dw=[3], lead=[(("time", 2),)]))
 def smooth_values(env, g, fw, dw, lead):
     """Coordinates kept; window mean where the window fits; within [min,max] of the neighbourhood elsewhere."""
     gg = GR[g]
@@ -97,7 +101,7 @@ def smooth_values(env, g, fw, dw, lead):
         env.equal(ov, vals, "window 1 is the identity")
 
 
-@harness(P, quick=grid(g=["circ4"], fw=[3], dw=[3], shift=[1, 2]) + grid(g=["unsorted4"], fw=[1], dw=[3], shift=[1]),
+@harness(P, quick=grid(g=["circ4"], fw=[3], dw=[3], shift=[1, 2]) + grid(g=["unsorted4"], fw=[1], dw=[3], shift=[1]) + grid(g=["circ6"], fw=[1], dw=[5], shift=[1, 4]),
          thorough=grid(g=["circ6"], fw=[3], dw=[3, 5], shift=[1, 2, 3, 5]) + grid(g=["unsorted6"], fw=[1], dw=[3], shift=[2]))
 def shift_commutes(env, g, fw, dw, shift):
     """smooth(data shifted circularly along dir) == shift(smooth(data)) on full-circle grids."""
